@@ -58,10 +58,6 @@ func ByteStreamConsumer(opts ...byteStreamOpt) Consumer {
 		if reader == nil {
 			return errors.New("ByteStreamConsumer requires a reader") // early exit
 		}
-		if data == nil {
-			return errors.New("nil destination for ByteStreamConsumer")
-		}
-
 		closer := defaultCloser
 		if vals.Close {
 			if cl, isReaderCloser := reader.(io.Closer); isReaderCloser {
@@ -71,6 +67,10 @@ func ByteStreamConsumer(opts ...byteStreamOpt) Consumer {
 		defer func() {
 			_ = closer()
 		}()
+
+		if data == nil {
+			return errors.New("nil destination for ByteStreamConsumer")
+		}
 
 		if readerFrom, isReaderFrom := data.(io.ReaderFrom); isReaderFrom {
 			_, err := readerFrom.ReadFrom(reader)
@@ -158,10 +158,6 @@ func ByteStreamProducer(opts ...byteStreamOpt) Producer {
 		if writer == nil {
 			return errors.New("ByteStreamProducer requires a writer") // early exit
 		}
-		if data == nil {
-			return errors.New("nil data for ByteStreamProducer")
-		}
-
 		closer := defaultCloser
 		if vals.Close {
 			if cl, isWriterCloser := writer.(io.Closer); isWriterCloser {
@@ -171,6 +167,10 @@ func ByteStreamProducer(opts ...byteStreamOpt) Producer {
 		defer func() {
 			_ = closer()
 		}()
+
+		if data == nil {
+			return errors.New("nil data for ByteStreamProducer")
+		}
 
 		if rc, isDataCloser := data.(io.ReadCloser); isDataCloser {
 			defer rc.Close()
